@@ -2,6 +2,7 @@ package sim
 
 import (
 	"fmt"
+	"strings"
 	"time"
 
 	"github.com/evanphx/json-patch/v5/zzverif/gen"
@@ -312,6 +313,60 @@ func RunEnumWorker(p Params) *Summary {
 			}
 		}
 	}
+	// (f) compositions near the nesting limit: the scanner accepts 10^4 levels, and copy/move/add can
+	// put a deep subtree at a deep position, so that what is serialised into ONE raw value (by copy)
+	// or into the result exceeds what the decoder will read back
+	for _, target := range targets {
+		for _, obj := range []bool{false, true} {
+			const D = 9000
+			open, close, step := "[", "]", "/0"
+			if obj {
+				open, close, step = `{"a":`, "}", "/a"
+			}
+			doc := strings.Repeat(open, D) + "1" + strings.Repeat(close, D)
+			at := func(n int) string { return strings.Repeat(step, n) }
+			tail := "/-"
+			if obj {
+				tail = "/z"
+			}
+			into := func(n int) string { return at(n) + tail }
+			through := func(n int) string { // a path through what was appended at depth n
+				if obj {
+					return at(n) + "/z" + at(3)
+				}
+				return at(n) + "/1" + at(3)
+			}
+			var patches []string
+			for _, d1 := range []int{1500, 20} {
+				for _, d2 := range []int{1200, 10} {
+					a := fmt.Sprintf(`{"op":"copy","from":%q,"path":%q}`, step, into(d1))
+					b := fmt.Sprintf(`{"op":"copy","from":%q,"path":%q}`, step, into(d2))
+					for _, c := range []string{
+						"",
+						fmt.Sprintf(`,{"op":"add","path":%q,"value":1}`, through(d2)+tail),
+						fmt.Sprintf(`,{"op":"test","path":%q,"value":1}`, through(d2)),
+						fmt.Sprintf(`,{"op":"remove","path":%q}`, through(d2)),
+						fmt.Sprintf(`,{"op":"copy","from":%q,"path":%q}`, through(d2), tail),
+						fmt.Sprintf(`,{"op":"move","from":%q,"path":%q}`, at(2), into(d2+5)),
+					} {
+						patches = append(patches, "["+a+","+b+c+"]")
+					}
+				}
+			}
+			for i := 0; i < len(patches); i += 2 {
+				if mine() {
+					sc := patchListScenario(seed, target, doc, patches[i:i+2], item)
+					for k := range sc.Tasks[0] {
+						// plain Apply: no copy-size limit stops the composition early
+						if c := &sc.Tasks[0][k]; c.Fn == FnApplyWithOptions {
+							c.Fn, c.Name, c.Opts = FnApply, FnNames[FnApply], Opts{}
+						}
+					}
+					exec(sc, "near-limit-nesting")
+				}
+			}
+		}
+	}
 	// (e) every three-call history over the fixed pool of call descriptors
 	nTriples := len(histPool())
 	runHistTriples(p, "C04", mine, exec, func() int { return item })
@@ -322,6 +377,7 @@ func RunEnumWorker(p Params) *Summary {
 			"single-byte substitution from {}[],:\"\\0-n NUL 0xFF at every offset of the same texts x every entry point x {v5, legacy}",
 			fmt.Sprintf("every ordered pair of %d small values x two-argument functions and DecodePatch/Apply x {v5, legacy}", len(smallValues)),
 			"10 operation templates x every small value x 6 documents x {v5, legacy}",
+			"near-limit nesting: documents nested 9000 deep (arrays, objects) x two copies of the deep subtree into positions at depth {1500,20} x {1200,10} x {no, add, test, remove, copy, move} as a third operation through the result x {v5, legacy}",
 			map[bool]string{true: "pointer algebra, three operations: every ordered pair followed by each of every 7th operation as a third (thorough tier)", false: "pointer algebra with a third operation: thorough tier only"}[p.Tier == "thorough"],
 			fmt.Sprintf("pointer algebra: every ordered pair of %d single operations (add/remove/replace/test/move/copy with path and from drawn from %d pointers around the empty reference token) x %d documents x {v5, legacy}", len(ops), len(algebraPointers), len(algebraDocs)),
 		}
